@@ -59,7 +59,7 @@ STD_ASSUMPTIONS = {
                'exec_allows_no_decreases_clause, so the registry units are partial-correctness proofs; absence of stack overflow is not proved anywhere',
     'MODULAR': 'the mutual recursion register_type <-> into_portable is cut modularly into two Verus units (registry / registry_impls) sharing one contract text, '
                'because Verus rejects the trait-dictionary cycle; four trait-impl methods (Path, Field, Variant, Type) are verified as identical-text inherent twins (rule R12)',
-    'TOOLS': 'Verus 0.2026.09.13 + Z3; rustc (macro expansion per feature set, -Zunpretty=expanded); the extractor (syntactic; global rules R1-R4, R6, R7, R9-R11, R14-R18 and the '
+    'TOOLS': 'Verus 0.2026.09.13 + Z3; rustc (macro expansion per feature set, -Zunpretty=expanded); the extractor (syntactic; global rules R1-R4, R6, R7, R9-R11, R14-R18 and the template-directed R19 plus the '
              'template-directed rewrites RET, R8, R12, R13, HDR - every application is logged in coverage.extraction.rewrites)',
 }
 
@@ -74,7 +74,7 @@ PROPS = {
         level='proof',
         technique='Verus data-structure invariant + trait-level contract on every into_portable impl; retain closure/cardinality contract; Kani bounded stand-ins for 3 closure functions',
         level_text='Registry::inv (every stored definition is filed under an in-range id and all ids it mentions are in range) and the pay-back clause (a call leaves a definition for exactly the ids it interned) are proved for register_type / intern_type_id and inherited by all 14 IntoPortable impls with MetaType::type_info() unconstrained, so density and closure hold after every top-level call for every type with type info (lemma_dense_step, lemma_dense_closed); resolve returns exactly the entry at the position; the builder is proved a duplicate-free list; retain on a well-formed registry is proved to return a well-formed registry (reg_wf: entry i carries id i and every referenced id resolves; see C10).',
-        level_note='Assumed contracts: BTreeMap entry API, lawful Ord/Clone of key types, mem::replace. Left external in Verus with assumed contracts (bounded stand-ins, not counted): Registry::register_types, map_into_portable, TypeParameter::into_portable (closures capturing &mut) and PortableRegistryBuilder::finish (enumerate). From<Registry> for PortableRegistry IS verified (as an identical-text inherent twin, tuple-pattern closure rewritten to a let, rule R8) under the assumption that BTreeMap iterates in ascending key order. Registries obtained by decoding the output of the library: by theorem_roundtrip (unit codec, C07) the decoded value EQUALS the encoded registry, so it inherits density and closure - that theorem is part of the obligations of this property only through C07, not re-proved here. Partial correctness for registration. All id guarantees up to 2^32 entries.',
+        level_note='Assumed contracts: BTreeMap entry API, lawful Ord/Clone of key types, mem::replace. Left external in Verus with assumed contracts (bounded stand-ins, not counted): Registry::register_types, map_into_portable (closures capturing &mut inside map().collect()) and PortableRegistryBuilder::finish (enumerate). TypeParameter::into_portable is verified after rule R19 (Option::map on a closure literal replaced by its definition, a match). From<Registry> for PortableRegistry IS verified (as an identical-text inherent twin, tuple-pattern closure rewritten to a let, rule R8) under the assumption that BTreeMap iterates in ascending key order. Registries obtained by decoding the output of the library: by theorem_roundtrip (unit codec, C07) the decoded value EQUALS the encoded registry, so it inherits density and closure - that theorem is part of the obligations of this property only through C07, not re-proved here. Partial correctness for registration. All id guarantees up to 2^32 entries.',
         verus=[('interner', INTERNER_ITEMS), ('registry', REGISTRY_ITEMS + ['tmpl::lemma_dense_*', 'tmpl::lemma_img_closed', 'tmpl::lemma_*_mono']),
                ('registry_impls', IMPL_ITEMS),
                ('portable', ['PortableRegistry::resolve', 'PortableRegistryBuilder::*', 'PortableType::new', 'Registry::types',
@@ -90,7 +90,7 @@ PROPS = {
         level='proof',
         technique='Verus: image_of postcondition (structural relation over all 8 definition kinds) on every into_portable impl and on register_type; invariant over the registry',
         level_text='The trait contract ensures image_of(self, out, final table): path segments, parameter names, field names/order/type names, variant names/indices, docs and array lengths equal, sequences related element-wise in order, each reference an in-range id whose table entry is the identity of the referenced MetaType. register_type ensures the returned id resolves to the type\'s identity, and Registry::inv states that every stored definition is the image of info_of(identity) w.r.t. the current table (stable under growth: proved monotonicity lemmas). Holds for recursive and mutually recursive types because type_info() is an unconstrained external function.',
-        level_note='Termination of registration is NOT proved (partial correctness). Coherence assumption A9 (type_info deterministic per identity). String conversion &str -> String assumed to preserve characters. register_types / map_into_portable / TypeParameter::into_portable are assumed (Kani-bounded order check for map_into_portable).',
+        level_note='Termination of registration is NOT proved (partial correctness). Coherence assumption A9 (type_info deterministic per identity). String conversion &str -> String assumed to preserve characters. register_types / map_into_portable are assumed (Kani-bounded order check for map_into_portable); TypeParameter::into_portable is verified (rule R19).',
         verus=[('registry', REGISTRY_ITEMS + ['tmpl::lemma_*']), ('registry_impls', IMPL_ITEMS + ['tmpl::lemma_*'])],
         kani_quick=['map_into_portable_in_order'], kani_thorough=['map_into_portable_in_order'],
         assumptions=['A4', 'A5', 'A6', 'A7', 'A9', 'PARTIAL', 'MODULAR', 'VSTD', 'TOOLS'],
